@@ -2,6 +2,7 @@ package main
 
 import (
 	"fmt"
+	"go/types"
 	"os"
 
 	"golang.org/x/tools/go/packages"
@@ -31,7 +32,7 @@ func main() {
 					for _, recv := range []interface{ }{t.Type()} {
 						_ = recv
 					}
-					ms := prog.MethodSets.MethodSet(t.Type())
+					ms := prog.MethodSets.MethodSet(types.NewPointer(t.Type()))
 					for i := 0; i < ms.Len(); i++ {
 						f := prog.MethodValue(ms.At(i))
 						if f != nil && t.Name()+"."+f.Name() == name {
